@@ -23,12 +23,13 @@ RevSpace ==
   {[vec |-> v, err |-> TRUE, method |-> "OCSP", serverErr |-> FALSE, iface |-> i, scheme |-> sc] :
       v \in {<<"OK">>, <<"OK", "OK", "OK">>}, i \in {"context", "deprecated"}, sc \in {"x509", "sa"}}
 
-Mk(rv, lvl) ==
+Mk(rv, lvl, plg) ==
   [api |-> "Verify", sel |-> "ok", skip |-> FALSE, env |-> EnvOK, desc |-> BenignDesc, required |-> NoMeta, signed |-> NoMeta,
    level |-> lvl, anchor |-> "found", identity |-> "match", expired |-> FALSE, certTime |-> "valid", revvec |-> rv,
-   plugin |-> "none", verdictTI |-> "success", verdictREV |-> "success", crit |-> "none"]
+   plugin |-> plg, verdictTI |-> "success", verdictREV |-> "success", crit |-> "none"]
 
-InputSpace == {Mk(rv, lvl) : rv \in RevSpace, lvl \in Levels}
+(* a verification plugin that offers the trusted-identity capability only leaves revocation to the library *)
+InputSpace == {Mk(rv, lvl, plg) : rv \in RevSpace, lvl \in Levels, plg \in {"none", "TI"}}
 
 Init == s \in {Start(in) : in \in InputSpace}
 Next == s.pc # "done" /\ s' = StepFn(s)
